@@ -517,6 +517,8 @@ static void script_vnaproperty_basic(Script &S) {
     PDEL(0, "names");
     S.add("vnaproperty_quote_key", false, [](World &w) { RET_PTR(w, vnaproperty_quote_key("my.key with[odd] {chars}\\"), w.str[0]); }, [](World &w) { w.obs("quoted=%s", w.str[0]); });
     S.add("vnaproperty_get", false, [](World &w) { errno = 0; const char *v = vnaproperty_get(w.prop[1], "%s", "my\\.key with\\[odd\\] chars"); w.err = errno; w.rc_bad = false; if (!v) return true; w.text[0] = v; return false; }, [](World &w) { w.obs("get=%s", w.text[0].c_str()); });
+    S.add("vnaproperty_quote_key", false, [](World &w) { RET_PTR(w, vnaproperty_quote_key(""), w.str[1]); }, [](World &w) { w.obs("quoted-empty=[%s]", w.str[1]); });
+    S.add("vnaproperty_quote_key", false, [](World &w) { RET_PTR(w, vnaproperty_quote_key("plain_key"), w.str[2]); }, [](World &w) { w.obs("quoted-plain=[%s]", w.str[2]); });
     PSET(0, ".=root becomes a scalar");
     PDEL(0, ".");
     PDEL(1, ".");
@@ -1092,6 +1094,7 @@ __attribute__((noinline)) static void scrub_stack() {
     __asm__ volatile("" ::: "memory");
 }
 
+static long g_cases, g_leak_checks;
 extern "C" int __lsan_do_recoverable_leak_check(void) __attribute__((weak));
 extern "C" size_t __sanitizer_get_current_allocated_bytes(void) __attribute__((weak));
 
@@ -1102,14 +1105,17 @@ void pbt_property(Ctx &c) {
     // description): every byte the heap grew across the case, other than the description itself,
     // triggers a LeakSanitizer check here.
     size_t before = __sanitizer_get_current_allocated_bytes ? __sanitizer_get_current_allocated_bytes() : 0;
-    size_t desc_before = c.desc.capacity();
+    auto heap_of = [](const std::string &str) -> size_t { return str.capacity() > 15 ? str.capacity() + 1 : 0; };
+    size_t desc_before = heap_of(c.desc);
     {
         struct Scrub { ~Scrub() { scrub_stack(); } } scrub;   // also when the case throws
         c12_case(c);
     }
     size_t after = __sanitizer_get_current_allocated_bytes ? __sanitizer_get_current_allocated_bytes() : 0;
-    size_t desc_growth = c.desc.capacity() > desc_before ? c.desc.capacity() - desc_before + 1 : 0;
+    g_cases++;
+    size_t desc_growth = heap_of(c.desc) > desc_before ? heap_of(c.desc) - desc_before : 0;
     if (__lsan_do_recoverable_leak_check && after > before + desc_growth) {
+        g_leak_checks++;
         if (__lsan_do_recoverable_leak_check() != 0)
             throw Fail{"lsan.leak", "LeakSanitizer reported a leak after the case (see stderr)"};
     }
@@ -1136,6 +1142,15 @@ __attribute__((noinline)) static void c12_case(Ctx &c) {
         S.K = K; S.ref_digest = d; S.total = 0;
         for (long n : K) S.total += n;
         S.ref_valid = true;
+        // LeakSanitizer checks are expensive in a long-running process and are triggered by any heap
+        // growth: intern the label names this script can produce now, in the case that is checked anyway
+        for (int i = 0, n = verif_fi_nsites(); i < n; i++) {
+            const char *file; int line;
+            verif_fi_site(i, &file, &line, nullptr, nullptr, nullptr);
+            Ctx::intern("site:" + base_name(file) + ":" + std::to_string(line));
+        }
+        for (auto &st : S.steps) Ctx::intern("failed:" + st.fn);
+        for (const char *l : {"outcome:failed-clean", "outcome:absorbed", "sysmsg:malloc: Cannot allocate memory", "sysmsg:calloc: Cannot allocate memory", "sysmsg:realloc: Cannot allocate memory", "sysmsg:strdup: Cannot allocate memory"}) Ctx::intern(l);
     }
     const long BLOCK = 16;
     long nblocks = (S.total + BLOCK - 1) / BLOCK;
@@ -1171,4 +1186,5 @@ void pbt_extra_json(FILE *f) {
         fprintf(f, "%s{\"site\": \"%s:%d\", \"func\": \"%s\", \"calls\": %ld, \"failed\": %ld}", i ? ", " : "", base_name(file).c_str(), line, func, calls, failed);
     }
     fprintf(f, "],\n");
+    fprintf(f, " \"harness_leak_checks\": %ld, \"harness_cases\": %ld,\n", g_leak_checks, g_cases);
 }
